@@ -5,26 +5,6 @@ From F2G Require Import gen.Consts Model.Restore.
 Import ListNotations.
 Open Scope Z_scope.
 
-Lemma safeb_spec sup orig d : safeb sup orig d = true <-> safe sup orig d.
-Proof.
-  unfold safeb, safe. rewrite orb_true_iff, !andb_true_iff, negb_true_iff, Z.eqb_neq, !Z.eqb_eq.
-  tauto.
-Qed.
-
-Lemma last_resort_write_failedb_spec p r :
-  last_resort_write_failedb p r = true <-> last_resort_write_failed p r.
-Proof.
-  unfold last_resort_write_failedb, last_resort_write_failed. rewrite andb_true_iff.
-  destruct (p_v2 p); split; intros [H1 H2]; split; auto; try discriminate; congruence.
-Qed.
-
-Lemma undetectableb_spec p : undetectableb p = true <-> undetectable p.
-Proof.
-  unfold undetectableb, undetectable.
-  destruct (p_mv p), (p_rb p); split; try discriminate; try tauto;
-    intros [H1 H2]; discriminate.
-Qed.
-
 (* the constants the statement speaks about are the ones in the source *)
 Lemma fallback_is_255 : RestoreFallbackPwm = 255.
 Proof. reflexivity. Qed.
@@ -117,7 +97,6 @@ Proof.
 Qed.
 
 (* ---- D3 as found: an ignored mode write is believed even with a working read-back ---- *)
-Definition d3_only : Defects := mkDefects false true false false false.
 
 Theorem restore_d3_refuted :
   exists orig d p, ~ undetectable p /\ p_rb p = ROk /\
